@@ -458,9 +458,11 @@ class BaseParser:
             if field.is_no_input(value, options=options):
                 # no input field does not take input from __init__
                 # but can still apply default
-                default = field.get_default(options, defer=False)
-                if not unprovided(default):
-                    result[name] = default
+                if name not in result:
+                    # (not over a value that was taken from another spelling of the field)
+                    default = field.get_default(options, defer=False)
+                    if not unprovided(default):
+                        result[name] = default
                 continue
 
             if not options.ignore_alias_conflicts:
@@ -537,13 +539,21 @@ class BaseParser:
                 k = str(k)
                 if k.lower() in self.case_insensitive_names:
                     lk = k.lower()
-                    if lk in _data and _data[lk] != v and not context.options.ignore_alias_conflicts:
-                        # two case variants of one name with different values: a conflict,
-                        # as data_first_parse reports it (not silently "last one wins")
+                    if lk in _data and _data[lk] != v:
                         field = self.get_field(lk)
-                        name = (field.attname if as_attname else field.name) if field else lk
-                        context.handle_error(exc.AliasConflictError(item=name, value=v))
-                        continue
+                        if field:
+                            # a value that is not taken as input can not conflict (and does not win)
+                            if field.is_no_input(v, options=context.options):
+                                continue
+                            if field.is_no_input(_data[lk], options=context.options):
+                                _data[lk] = v
+                                continue
+                        if not context.options.ignore_alias_conflicts:
+                            # two case variants of one name with different values: a conflict,
+                            # as data_first_parse reports it (not silently "last one wins")
+                            name = (field.attname if as_attname else field.name) if field else lk
+                            context.handle_error(exc.AliasConflictError(item=name, value=v))
+                            continue
                     _data[lk] = v
                 else:
                     _data[k] = v
@@ -562,20 +572,32 @@ class BaseParser:
             if excluded_keys and name in excluded_keys:
                 continue
 
-            if options.ignore_alias_conflicts:
-                for alias in field.all_aliases:
-                    if alias in data:
+            no_input = False
+            for alias in field.all_aliases:
+                if alias in data:
+                    if field.is_no_input(data[alias], options=options):
+                        # no input field does not take input from __init__ (but can still apply default)
+                        # a value that is not taken can not conflict with another one (as in data_first_parse)
+                        no_input = True
+                        continue
+                    if unprovided(value):
                         value = data[alias]
+                        if options.ignore_alias_conflicts:
+                            break
+                    elif data[alias] != value:
+                        context.handle_error(exc.AliasConflictError(item=name, value=data[alias]))
                         break
-            else:
-                for alias in field.all_aliases:
-                    if alias in data:
-                        if unprovided(value):
-                            value = data[alias]
-                        else:
-                            if data[alias] != value:
-                                context.handle_error(exc.AliasConflictError(item=name, value=data[alias]))
-                                break
+
+            if unprovided(value) and no_input:
+                used_alias.update(field.all_aliases)
+                default = field.get_default(options, defer=False)
+                if not unprovided(default):
+                    result[name] = default
+                elif field.is_required(options=options):
+                    # a required field whose given value is not taken as input is absent
+                    unprovided_fields.add(name)
+                    context.handle_error(exc.AbsenceError(item=name))
+                continue
 
             if unprovided(value):
                 unprovided_fields.add(name)
@@ -591,14 +613,6 @@ class BaseParser:
                 continue
 
             used_alias.update(field.all_aliases)
-            # even if field is no-input, it can still set default (by developer, no by input)
-            if field.is_no_input(value, options=options):
-                # no input field does not take input from __init__
-                # but can still apply default
-                default = field.get_default(options, defer=False)
-                if not unprovided(default):
-                    result[name] = default
-                continue
 
             parsed = field.parse_value(value, context=context)
             if unprovided(parsed):
